@@ -156,7 +156,8 @@ class YowProtocolLayer(YowLayer):
     def processIqRegistry(self, protocolTreeNode):
         if protocolTreeNode.tag == "iq":
             iq_id = protocolTreeNode["id"]
-            if iq_id in self.iqRegistry:
+            # only a reply consumes the pending request: a get/set stanza that happens to carry the same id is not one
+            if iq_id in self.iqRegistry and protocolTreeNode["type"] in ("result", "error"):
                 originalIq, successClbk, errorClbk = self.iqRegistry[iq_id]
                 del self.iqRegistry[iq_id]
 
